@@ -4,10 +4,12 @@
 package names
 
 import (
+	"bytes"
 	"fmt"
 	"math/rand/v2"
 	"net"
 	"net/netip"
+	"slices"
 	"strings"
 	"testing"
 
@@ -24,6 +26,10 @@ type local struct {
 	key                 string
 	fam                 string
 	samples             int
+	// one buffer per address length, refilled for every case (a caller converting many addresses through one
+	// net.IP value), and what it held in the previous case
+	bufs map[int][]byte
+	prev map[int][]byte
 }
 
 func (l *local) flush() {
@@ -118,7 +124,27 @@ func unmap(a netip.Addr) netip.Addr { return a.Unmap() }
 // c04Addr checks the round trip for one net.IP.
 func c04Addr(r *mon.Run, l *local, ip net.IP, rng *rand.Rand) {
 	l.evals++
-	name, err := netutil.IPToReversedAddr(ip)
+	c := map[string]any{"ip": []byte(ip)}
+	arg := ip
+	if n := len(ip); n > 0 {
+		if l.bufs == nil {
+			l.bufs, l.prev = map[int][]byte{}, map[int][]byte{}
+		}
+		if l.bufs[n] == nil {
+			l.bufs[n] = make([]byte, n)
+		} else if l.prev[n] != nil {
+			c["prev_ip"] = l.prev[n]
+		}
+		copy(l.bufs[n], ip)
+		arg = net.IP(l.bufs[n])
+		l.prev[n] = slices.Clone([]byte(ip))
+	}
+	name, err := netutil.IPToReversedAddr(arg)
+	if !bytes.Equal(arg, ip) {
+		r.Violation(fmt.Sprintf("enc-mutates:%x", []byte(ip)), fmt.Sprintf("IPToReversedAddr(%x) changed the bytes of its argument to %x", []byte(ip), []byte(arg)), c)
+		copy(arg, ip)
+		return
+	}
 	var a netip.Addr
 	var valid bool
 	if ip4 := ip.To4(); ip4 != nil {
@@ -135,7 +161,11 @@ func c04Addr(r *mon.Run, l *local, ip net.IP, rng *rand.Rand) {
 	l.nontriv++
 	want := ref.CanonArpa(a)
 	if err != nil || name != want {
-		r.Violation("enc:"+a.String(), fmt.Sprintf("IPToReversedAddr(%v) = %q, %v; canonical name is %q", ip, name, err, want), map[string]any{"ip": []byte(ip)})
+		note := ""
+		if p, ok := c["prev_ip"].([]byte); ok {
+			note = fmt.Sprintf(" (the same net.IP buffer held %x in the call before)", p)
+		}
+		r.Violation("enc:"+a.String(), fmt.Sprintf("IPToReversedAddr(%v) = %q, %v; canonical name is %q%s", ip, name, err, want, note), c)
 		return
 	}
 	// decode in lower, UPPER, random case, with and without one trailing dot
@@ -187,6 +217,7 @@ func TestC04(t *testing.T) {
 	var rc struct {
 		Name *string `json:"name"`
 		IP   []byte  `json:"ip"`
+		Prev []byte  `json:"prev_ip"`
 	}
 	if ok, err := mon.ReplayCase("codec", &rc); ok {
 		if err != nil {
@@ -196,6 +227,12 @@ func TestC04(t *testing.T) {
 		if rc.Name != nil {
 			c04Name(r, l, *rc.Name)
 		} else {
+			if len(rc.Prev) == len(rc.IP) && len(rc.Prev) > 0 {
+				// the buffer's previous contents are part of the case
+				pl := &local{r: r, key: "accepted", fam: "replay"}
+				c04Addr(r, pl, net.IP(rc.Prev), nil)
+				l.bufs, l.prev = pl.bufs, pl.prev
+			}
 			c04Addr(r, l, net.IP(rc.IP), r.Rand(1))
 		}
 		l.flush()
